@@ -349,6 +349,19 @@ def run(ctx):
         tps_ = [c for c in buf_ops(hw) if c.fn is hw and c.is_("Vec<T, A>::push", "extend_from_slice") and any(isinstance(x, tuple) and x[:2] == ("arg", 3) for x in sym_walk(arg_syms(c)[1]))]
         untyped = [c for c in cms_ if not any(hw.body.dominates(t.bb, c.bb) and not (in_cycle(hw.body, c.bb) and not in_cycle(hw.body, t.bb)) for t in tps_)]
         chk.ob("C09.e", f"{hw.path} [type token per payload]", bool(cms_) and not untyped, f"{len(cms_)} commit site(s), each after a write of the metric_type parameter" if cms_ and not untyped else "a payload is closed without writing the metric_type parameter: it goes out under a fixed type token, whatever metric was written", untyped[0].loc() if untyped else hw.loc())
+        # commit() does the framing work (offset, length prefix, next placeholder): it is evaluated in every build, never only
+        # as the condition of a debug assertion; and the trailer every payload ends with is rendered for this very call
+        dbg_ = [c for c in cms_ if "debug_assert" in str(c.t.get("expc") or "")]
+        if hw.hir:
+            from facts import walk as _hwalk
+
+            dbg_lines = {x.get("ln") for n in _hwalk(hw.hir) if n.get("k") == "If" and "debug_assert" in str(n.get("exp") or "") for x in _hwalk(n) if x.get("k") == "MethodCall" and x.get("name") == "commit"}
+            dbg_ += [c for c in cms_ if c.line in dbg_lines and c not in dbg_]
+        chk.ob("C09.d", f"{hw.path} [commit in every build]", not dbg_, f"{len(cms_)} commit call(s), none inside a debug-only assertion" if not dbg_ else "commit() is the condition of a debug_assert!: release builds never close the payload — a split histogram is glued into one over-long frame and the final assert panics", dbg_[0].loc() if dbg_ else hw.loc(), nontrivial=False)
+        trs_ = [c for c in nonforeign_calls(hw) if c.fn is hw and c.is_("writer::write_metric_trailer", "PayloadWriter::write_trailing")]
+        stale = [c for c in cms_ if not any(hw.body.dominates(t.bb, c.bb) for t in trs_)]
+        if trs_:
+            chk.ob("C09.e", f"{hw.path} [trailer rendered per call]", not stale, "the trailer is rendered on every path before a payload is closed" if not stale else "a payload can be closed with a trailer that was not rendered in this call (kept from an earlier write): sample rate and tags of another write are sent", stale[0].loc() if stale else hw.loc(), nontrivial=False)
         chk.ob("C09.e", f"{hw.path} [value formatter]", ok, "histogram values through ryu::Buffer::format" if ok else "histogram values are not rendered with ryu::Buffer::format (format_finite prints garbage for NaN/inf)", hw.loc())
     wt = d.fn(f"{D}::writer::write_metric_trailer")
     if need(chk, "C09.e", "write_metric_trailer", wt):
